@@ -296,6 +296,9 @@ def worker(part, acc):
 
 
 def run(ctx):
+    from ..seams import validate as _validate_seams
+
+    seam_report = _validate_seams(PROP)  # real random sources under a recorder: every API reached must be modelled (else exit 2)
     ids = list(identity_items(ctx.tier))
     fits = list(fit_items(ctx.tier))
     items = ids + fits
@@ -311,6 +314,7 @@ def run(ctx):
     i = ids[(ctx.seed * 5 + 1) % len(ids)][1]
     ctx.sample({"identities": {"N": i[0], "K": i[1], "D": i[2], "first_u_of_block": list(i[3][0])}})
     cov = {
+        "seam_validation": seam_report,
         "evaluations": ev, "distinct_nontrivial": len(nt), "exhaustive": True, "distinct_outcomes": len(oc),
         "ascent_sequences_checked": ctx.counts.get("fit-ascent-sequences", 0),
         "ascent_sequences_vacuous": ctx.counts.get("fit-ascent-vacuous(max_hye_size below the data or zero rate)", 0),
